@@ -3,6 +3,8 @@ import KVerif.Drv.Lay
 import KVerif.Model.Kanata
 import KVerif.Model.KanataV2  -- chv2
 import KVerif.Drv.KanSeq   -- [seq]
+import KVerif.Drv.KanDyn   -- [dyn]
+import KVerif.Model.KanataV2Dyn   -- [dyn]
 namespace KVerif.Drv.Kan
 open KVerif.L KVerif.K KVerif.Drv KVerif.Drv.Cfg
 
@@ -41,6 +43,9 @@ def cact : P CAct := do
   | "sl" => do let t ← num; return .seqLeader t (← KanSeq.mode)   -- [seq]
   | "sc" => return .seqCancel                                     -- [seq]
   | "sn" => return .seqNoerase (← num)                            -- [seq]
+  | "dmr" => return .dyn (.record (← num))   -- [dyn]
+  | "dms" => return .dyn (.stop (← num))     -- [dyn]
+  | "dmp" => return .dyn (.play (← num))     -- [dyn]
   | x => throw s!"bad custom action token {x}"
 
 inductive KEv
@@ -66,6 +71,8 @@ structure Case where
   unsupported : Option String := none
   chv2 : Option ChV2Cfg := none     -- chv2: the `defchordsv2` table (section `CHV2 …` after the kanata state)
   hist : List KEv
+  sched1 : KanDyn.Sched := []   -- [dyn] hash-set order hints of the blocking run
+  sched2 : KanDyn.Sched := []   -- [dyn] … of the always-ticking run
 
 def khist : P (List KEv) := do
   expect "HIST"
@@ -108,10 +115,11 @@ def case (tag : String) : P Case := do
     return { dbg := dbg == 1, k := none, unsupported := some why, hist := ← khist }
   | _ => do
     let k ← kstate
+    let (k, s1, s2) ← KanDyn.dynSection k   -- [dyn] section ` DYN …` (after the kanata state, before `CHV2`)
     let v2 ← match (← peek?) with   -- chv2
       | some "CHV2" => do pure (some (← chv2Cfg))
       | _ => pure none
-    return { dbg := dbg == 1, k := some k, chv2 := v2, hist := ← khist }
+    return { dbg := dbg == 1, k := some k, chv2 := v2, hist := ← khist, sched1 := s1, sched2 := s2 }
 
 def fmtOs : Os → String
   | .down k => s!"d{k}"
@@ -129,6 +137,7 @@ def crashName : K.Crash → String
   | .underflow s => s!"underflow({s})"
   | .customId => "customId"
   | .seq c => KanSeq.crashName c   -- [seq]
+  | .dyn _ => "dynmacro-len-minus-one"   -- [dyn]
 
 structure Run where
   k : KState
@@ -138,6 +147,7 @@ structure Run where
   msElapsed : Nat := 0
   out : Array String := #[]
   diag : List String := []     -- model-side diagnosis (not part of the compared output)
+  sched : KanDyn.Sched := []   -- [dyn]
 
 /-- move what the model emitted since the last call into the trace, stamped with virtual time -/
 def collectTag (tag : String) (r : Run) : Run :=
@@ -155,8 +165,9 @@ def Case.run0 (c : Case) (k : KState) : Run := { k, chv2 := c.chv2.map fun cfg =
 -- C01/C07/C14/C18 theorems are about), with chords v2 through their twins of Model/KanataV2.lean
 def stepTick (s : KV2) : Except K.Crash KV2 :=
   match s.chv2 with
-  | none => match tickStates s.k with | .error c => .error c | .ok k => .ok { k }
-  | some _ => tickStatesV2 s
+  -- [dyn] `tick_ms(1)`: `tick_states`, the replay step, the `extra_ticks` loop
+  | none => match tickMs 1 s.k with | .error c => .error c | .ok k => .ok { k }
+  | some _ => tickMsV2 1 s
 def stepInput (s : KV2) (i : Input) : Except K.Crash KV2 :=
   match s.chv2 with
   | none => match handleInputEvent s.k i with | .error c => .error c | .ok k => .ok { k }
@@ -176,6 +187,7 @@ def stepIsIdle (s : KV2) : Bool :=
 -- chv2 end
 
 def doTick (dbg : Bool) (r : Run) : Except K.Crash Run :=
+  let r := { r with k := KanDyn.withHints r.sched r.vt r.k }   -- [dyn] hints
   match stepTick r.s with
   | .error c => .error c
   | .ok s =>
@@ -189,6 +201,7 @@ def ticksN (dbg : Bool) : Nat → Run → Except K.Crash Run
     | .ok r => ticksN dbg n r
 
 def doInput (r : Run) (i : Input) : Except K.Crash Run :=
+  let r := { r with k := KanDyn.withHints r.sched r.vt r.k }   -- [dyn] hints
   match stepInput r.s i with
   | .error c => .error c
   | .ok s => .ok (collectTag (match i with | .rep _ => "R" | _ => "") (r.set s))
@@ -286,6 +299,7 @@ def finish (r : Run) (withDigest : Bool) : String :=
   if r.risk then "unsupported oneshot-evict-chv2" else   -- chv2
   let out := r.out.push s!"I idle={if stepIsIdle r.s then 1 else 0}"
   let out := if withDigest then out.push s!"D {r.digest}" else out
+  let out := if KanDyn.usesDyn r.k then out.push (KanDyn.digest r.k.dyn) else out   -- [dyn]
   " ".intercalate out.toList
 
 def modelOut (c : Case) : String :=
@@ -296,12 +310,12 @@ def modelOut (c : Case) : String :=
   | none => "rej"
   | some k =>
     let lm := isLoop c.hist
-    match runHist c.dbg lm false c.hist (c.run0 k) with
+    match runHist c.dbg lm false c.hist { c.run0 k with sched := c.sched1 } with
     | .error e => s!"crash {crashName e}"
     | .ok r =>
       if r.risk then finish r true else   -- chv2
       if lm then
-        match runHist false true true c.hist (c.run0 k) with
+        match runHist false true true c.hist { c.run0 k with sched := c.sched2 } with
         | .error e => s!"{finish r true} || STEP crash {crashName e}"
         | .ok r2 => s!"{finish r true} || STEP {finish r2 false}"
       else finish r true
